@@ -1332,17 +1332,17 @@ def run_check(rep, thorough):
         sysprojs = sysprojs + [gen_project(rng, None, system=True, max_libs=6) for _ in range(nsys)]
     sbad, sdis = stage_system(rep, rng, fixed, sysprojs, None if thorough else 7)
     found = len(rep.violations) - v0
-    if sdis and not found:
+    if sdis and not rep.n_with_input:
         p, x = sdis[0]
         rep.fail('system level: the link lines of the real build and the model differ (%d cases), e.g. node %r: '
                  'make -n %r, model %r' % (len(sdis), x[0], x[2], x[3]),
                  {'obligation': 'system:link-line == model', 'project': p.to_json(), 'detail': repr(x)[:2000]},
                  found_input=False)
     rep.stage('law:strings-kept-with-multiplicity', holds=not getattr(rep, 'c14_law', None))
-    if getattr(rep, 'c14_law', None) and not found:
+    if getattr(rep, 'c14_law', None) and not rep.n_with_input:
         rep.fail(rep.c14_law[0], rep.c14_law[1], found_input=False)
     for d, what in ((dis, 'W:link'), (dis2, 'W:rpath')):
-        if d and not found:
+        if d and not rep.n_with_input:
             i, call, iv, mv = d[0]
             rep.fail('%s - model and implementation disagree (%d cases), e.g. %s: impl %r, model %r' % (
                 what, len(d), call[0], iv, mv),
